@@ -275,6 +275,26 @@ pub fn run(ctx: &Ctx) -> (Stats, Spec) {
         let parts = util::par_jobs(64, |job| exhaustive_fix_job(job, 64, k, 1));
         st.merge(crate::report::merge_all(parts));
     }
+    // quantifiers INSIDE a fixed point that reach their variable only through the fixed-point
+    // variable, the same name being bound again outside
+    {
+        let mut rng = Rng::stream(ctx.seed, "C01.innerquant", 0);
+        let cfg = { let mut c = GenCfg::simple(&["a", "b", "c"], 2); c.allow_fix = false; c };
+        for i in 0..ctx.tier.pick(600u64, 10_000u64) {
+            let g = gen::render(&gen::gen_ast(&mut rng, &cfg), &mut rng, Style::Plain);
+            let v = *rng.pick(&["a", "b", "c"]);
+            let (fix, op) = *rng.pick(&[("lfp", "|"), ("gfp", "&"), ("mu", "or"), ("nu", "and")]);
+            let (q1, q2) = (*rng.pick(&["forall", "exists"]), *rng.pick(&["exists", "forall", "any", "all"]));
+            let text = match i % 3 {
+                0 => format!("{} {} # ({} X # (({}) {} {} {} # X))", q1, v, fix, g, op, q2, v),
+                1 => format!("{} {} # (({} <=> c) & {} X # (({}) {} ({} & {} {} # X)))", q1, v, v, fix, g, op, v, q2, v),
+                _ => format!("{} {}, b # ({} X # (({}) {} {} b, {} # (X {} a)))", q1, v, fix, g, op, q2, v, op),
+            };
+            if check_text(&mut st, &text, "inner-quantifier-over-the-fixed-point-variable") {
+                st.bump("inner_quantifier_over_the_fixed_point_variable");
+            }
+        }
+    }
     // sampled bodies with 3 operator nodes: a 2-node tree under one more node
     let wrapped = ctx.tier.pick(2_000u64, 60_000u64);
     let parts = util::par_jobs(16, |job| {
